@@ -44,6 +44,16 @@ Definition shr64 (a vr : Z) : Z := let n := u64 vr in if 64 <=? n then (if a <? 
 (* conversions to 32 bits; results as bit patterns *)
 Definition to32 (z : Z) : Z := wrap z.                (* bits of int32(z) = bits of uint32(z) *)
 
+(* float64 -> integer conversions.  Go: "if the result type cannot represent the value the
+   conversion succeeds but the result value is implementation-dependent".  For a value whose
+   truncation t fits, the result is t; otherwise what the gc compiler does on amd64 (the
+   platform the check runs naga on; observed with a probe program): int64 -> MinInt64,
+   int32 -> MinInt32, uint32 -> low 32 bits of the int64 conversion.  [t] is the truncated
+   real value (NaN/infinities are handled by the float model, which passes an out-of-range t). *)
+Definition f2i64_amd64 (t : Z) : Z := if (- H64 <=? t) && (t <? H64) then t else - H64.
+Definition f2i32_amd64 (t : Z) : Z := if (- H32 <=? t) && (t <? H32) then wrap t else H32.
+Definition f2u32_amd64 (t : Z) : Z := wrap (f2i64_amd64 t).
+
 (* uint32 arithmetic (evalConstU32Expr) on bit patterns *)
 Definition addu32 a b := wrap (a + b).
 Definition subu32 a b := wrap (a - b).
